@@ -97,3 +97,14 @@ Print Assumptions C02_spaced_sentences_are_accepted.
 Print Assumptions C02_spaced_non_sentences_are_rejected.
 Print Assumptions C02_operator_table_is_the_language.
 Print Assumptions C02_operator_table_spells_nothing_else.
+
+(* State space: the objects this property's model stands for have exactly the fields the model accounts for (StateSpace.v;
+   gen/StateSpaceGen.v is regenerated from the Go sources on every run). A new field - a cache, a memo, a counter - is state
+   the model does not have, so the theorems above would no longer be about the object. *)
+From Coq Require Import String.
+Require Import StateSpaceGen StateSpace.
+Open Scope string_scope.
+Theorem C02_state_space :
+  fields_of "calculator/parsers.ExpressionParser" = fields ["tokenizer"; "expression"; "originalTokens"; "initialTokens"; "currentTokenIndex"; "variableNames"; "resultTokens"].
+Proof. vm_compute. repeat split; reflexivity. Qed.
+Print Assumptions C02_state_space.
